@@ -28,7 +28,9 @@ RECURSIVE Chains(_)
 Chains(n) ==
   IF n = 1 THEN {<<[ws |-> <<>>, eol |-> e, long |-> l, cmt |-> c]>> : e \in EolsLast, l \in LongLens, c \in Cmts}
   ELSE {<<[ws |-> w, eol |-> e, long |-> l, cmt |-> <<>>]>> \o rest : w \in WSs, e \in EolsMid, l \in LongLens, rest \in Chains(n - 1)}
-AllChains == UNION {Chains(n) : n \in 1..MaxPieces}
+\* for the replay (Emit) at most one piece of a chain is a long one
+AllChains == {c \in UNION {Chains(n) : n \in 1..MaxPieces} :
+                Emit => Cardinality({k \in 1..Len(c) : c[k].long > 0}) <= 1}
 
 \* the chain as pieces [t, eol] of SourceLine.ChainFile / ChainText
 Pieces(c) == [k \in 1..Len(c) |->
